@@ -53,7 +53,7 @@ def job_real():
     ns = dict(c)
     ns.update({'isinf': lambda v: B(False), 'isnan': lambda v: B(False), 'isfinite': lambda v: B(True), 'INFINITY': Q.sym('INF'), 'NAN': Q.sym('NAN'),
                'fabs': atoms.absval, 'sqrt': atoms.sqrt, 'signbit': lambda v: Q.of(v) < 0,
-               'copysign': lambda a, b: atoms.absval(Q.of(a)) * NP.sign(Q.of(b))})
+               'copysign': NP.copysign})      # b == 0 counts as +0 (over the reals there is one zero; the -0 clauses are the Annex G job's))
     fns, ns = loader.load_pyx(CX, ['cf_hypot', 'cf_csqrt', 'cf_cabs'], ns)
     ns['cf_build_dblcmplx'] = lambda a, b: Z(Q.of(a), Q.of(b))
     results = []
@@ -171,7 +171,7 @@ def job_structure():
             self.real, self.imag = Q.of(re), Q.of(im)
     ns = dict(c)
     ns.update({'isinf': lambda v: B(False), 'isnan': lambda v: B(False), 'isfinite': lambda v: B(True), 'INFINITY': Q.sym('INF'), 'NAN': Q.sym('NAN'), 'fabs': atoms.absval, 'sqrt': atoms.sqrt,
-               'signbit': lambda v: Q.of(v) < 0, 'copysign': lambda a, b: atoms.absval(Q.of(a)) * NP.sign(Q.of(b)), 'exp': un('exp'), 'cos': un('cos'), 'sin': un('sin'), 'log': un('log'),
+               'signbit': lambda v: Q.of(v) < 0, 'copysign': NP.copysign, 'exp': un('exp'), 'cos': un('cos'), 'sin': un('sin'), 'log': un('log'),
                'log1p': un('log1p'), 'atan2': un('atan2'), 'frexp': frexp, 'ldexp': ldexp, 'ceil': lambda v: Q.of(v), 'cf_hypot': un('hypot')})
     fns, ns = loader.load_pyx(CX, ['cf_cabs', 'cf_carg', 'cf_scaled_cexp', 'cf_cexp', 'cf_clog', 'cf_cpow'], ns)
     ns['cf_build_dblcmplx'] = lambda a, b: Z(a, b)
@@ -433,6 +433,7 @@ def job_annexg(clause):
         return v if isinstance(v, fp.FPV) else X.of(v)
     ns = {k: (v if not isinstance(v, Fr) else v) for k, v in c.items()}
     ns.update({'isinf': lambda v: fp.FB(lift(v).isinf(), S), 'isnan': lambda v: fp.FB(lift(v).isnan(), S), 'INFINITY': inf, 'NAN': nan,
+               'isfinite': lambda v: fp.FB(z3.Not(z3.Or(lift(v).isinf(), lift(v).isnan())), S),
                'fabs': lambda v: abs(lift(v)), 'sqrt': lambda v: lift(v).sqrt(), 'signbit': lambda v: fp.FB(z3.fpIsNegative(lift(v).t), S),
                'copysign': lambda a, b: fp.fp_ite(fp.FB(z3.fpIsNegative(lift(b).t), S), -abs(lift(a)), abs(lift(a))),
                'cf_build_dblcmplx': lambda a, b: Z(lift(a), lift(b))})
